@@ -91,6 +91,9 @@ class G:
                     rows.append([lo, up, f"t{i}"])
                     lo = up + 1 + self.pick([0, 0, 2])
                 compu = {"c": "TEXTTABLE", "rows": rows}
+                if self.chance(40):
+                    compu["default"] = "dflt"      # COMPU-DEFAULT-VALUE for internal values no scale covers
+                    self.features.add("compu:default-value")
                 pt = "A_UNICODE2STRING"
                 self.features.add("compu:TEXTTABLE")
         if dct["bt"] == "A_UINT32" and dct.get("enc") in (None, "NONE") and compu["c"] == "IDENTICAL" and \
@@ -175,6 +178,9 @@ class G:
         """draw a value for a dynamic-length diag coded type (min-max / leading length / param length)"""
         from vlib.refcodec import str_codec
         bt, enc, hl = dct["bt"], dct.get("enc"), dct.get("hl")
+        if bt == "A_UINT32":
+            # PARAM-LENGTH-INFO integer: magnitudes that need different numbers of bytes
+            return self.d(st.one_of(st.integers(0, 255), st.integers(256, 65535), st.integers(65536, (1 << 32) - 1)))
         is_bytes = bt == "A_BYTEFIELD"
         unit = 2 if bt == "A_UNICODE2STRING" else 1
         if dct["t"] == "minmax":
@@ -239,7 +245,10 @@ class G:
                     "dct": {"t": "std", "bt": "A_UINT32", "bl": self.pick([8, 16]), "enc": None,
                             "hl": self.pick([None, True, False])},
                     "compu": {"c": "IDENTICAL"}, "pt": "A_UINT32"}
-            lk = {"pk": "lenkey", "name": kname, "id": self.nid("lkid"), "pos": None, "bit": 0, "dop": kdop}
+            kbit = self.d(st.integers(1, 7)) if self.chance(30) else 0
+            if kbit:
+                self.features.add("lenkey-bitpos")
+            lk = {"pk": "lenkey", "name": kname, "id": self.nid("lkid"), "pos": None, "bit": kbit, "dop": kdop}
             dct = {"t": "paramlen", "bt": bt, "key": kname, "enc": enc, "hl": hl}
             val = self.dyn_value(dct)
             self.features.add("dct:paramlen")
@@ -481,7 +490,7 @@ class G:
                 size, bit = None, 0
                 if lk is not None:
                     # the length key goes in front (static part if still static)
-                    ksz = lk["dop"]["dct"]["bl"] // 8
+                    ksz = (lk["bit"] + lk["dop"]["dct"]["bl"] + 7) // 8
                     if not dynamic:
                         lk["pos"] = pos
                         lk["_end"] = pos + ksz
@@ -569,12 +578,28 @@ class G:
         return dop, val, bl // 8
 
     def table_group(self, tail: bool):
-        kbits = self.pick([8, 8, 16])
-        kdop = {"k": "simple", "id": self.nid("dop"),
-                "dct": {"t": "std", "bt": "A_UINT32", "bl": kbits, "enc": None, "hl": self.pick([None, False])},
-                "compu": {"c": "IDENTICAL"}, "pt": "A_UINT32"}
+        ktype = self.pick(["int", "int", "int", "str", "bytes"]) if self.opts.get("table_key_types", True) else "int"
+        if ktype == "int":
+            kbits = self.pick([8, 8, 16])
+            kdop = {"k": "simple", "id": self.nid("dop"),
+                    "dct": {"t": "std", "bt": "A_UINT32", "bl": kbits, "enc": None, "hl": self.pick([None, False])},
+                    "compu": {"c": "IDENTICAL"}, "pt": "A_UINT32"}
+            keys = sorted({self.d(st.integers(0, (1 << kbits) - 1)) for _ in range(self.d(st.integers(1, 3)))})
+        elif ktype == "str":
+            kbits = 16
+            kdop = {"k": "simple", "id": self.nid("dop"),
+                    "dct": {"t": "std", "bt": "A_ASCIISTRING", "bl": 16, "enc": None, "hl": None},
+                    "compu": {"c": "IDENTICAL"}, "pt": "A_UNICODE2STRING"}
+            keys = sorted({self.d(st.text(alphabet="ABXY01", min_size=2, max_size=2)) for _ in range(self.d(st.integers(1, 3)))})
+            self.features.add("table-key:str")
+        else:
+            kbits = 16
+            kdop = {"k": "simple", "id": self.nid("dop"),
+                    "dct": {"t": "std", "bt": "A_BYTEFIELD", "bl": 16, "enc": None, "hl": None},
+                    "compu": {"c": "IDENTICAL"}, "pt": "A_BYTEFIELD"}
+            keys = sorted({self.d(st.binary(min_size=2, max_size=2)) for _ in range(self.d(st.integers(1, 3)))})
+            self.features.add("table-key:bytes")
         rows = []
-        keys = sorted({self.d(st.integers(0, (1 << kbits) - 1)) for _ in range(self.d(st.integers(1, 3)))})
         for i, kv in enumerate(keys):
             row = {"name": f"row{i}", "id": self.nid("tr"), "key": kv, "st": None, "dop": None}
             if self.chance(70):
@@ -594,6 +619,26 @@ class G:
         kval = row["name"] if self.chance(35) else None
         self.features.add("table")
         return tk, ts, [row["name"], content], kval
+
+    def env_item_struct(self):
+        """structure [DTC parameter, ENV-DATA-DESC parameter]: one record of a DTC + environment data list"""
+        ddop, _, dsz = self.dtc_dop()
+        dname = self.nid("p")
+        envs = []
+        if self.chance(60):
+            eps, _, _ = self.params(0, True, False, max_slots=2)
+            envs.append({"id": self.nid("env"), "name": self.nid("envall"), "all": True, "dtcs": [], "params": eps})
+        for _, c in ddop["dtcs"][:3]:
+            if self.chance(75):
+                eps, _, _ = self.params(0, True, False, max_slots=2)
+                envs.append({"id": self.nid("env"), "name": self.nid("envdtc"), "all": False, "dtcs": [c], "params": eps})
+        edop = {"k": "envdesc", "id": self.nid("edd"), "param": dname, "envs": envs}
+        self.features.add("envdata")
+        self.features.add("envdata-in-field")
+        self.features.add("struct")
+        return {"k": "struct", "id": self.nid("st"), "bs": None, "params": [
+            {"pk": "value", "name": dname, "pos": 0, "bit": 0, "dop": ddop, "default": None},
+            {"pk": "value", "name": self.nid("p"), "pos": None, "bit": 0, "dop": edop, "default": None}]}
 
     def emfield(self, tail: bool):
         """dynamic end-marker field; at the tail of the PDU no termination value is on the wire, otherwise
@@ -691,8 +736,29 @@ class G:
                 self.features.add("field>=2")
             return {"k": "sfield", "id": self.nid("sf"), "st": s, "n": n, "isz": isz}, vals, n * isz
         if k == "dlfield":
-            item_static = self.chance(70)
-            if not item_static and self.chance(50):
+            item_static = self.chance(55)
+            if not item_static and self.opts.get("envdata", True) and self.chance(30):
+                s = self.env_item_struct()
+                size = None
+            elif not item_static and self.chance(35):
+                # items made of a LENGTH-KEY and a PARAM-LENGTH-INFO value (the key is left implicit: every item
+                # determines its own length)
+                kname = self.nid("lk")
+                kdop = {"k": "simple", "id": self.nid("dop"),
+                        "dct": {"t": "std", "bt": "A_UINT32", "bl": 8, "enc": None, "hl": None},
+                        "compu": {"c": "IDENTICAL"}, "pt": "A_UINT32"}
+                bt = self.pick(["A_BYTEFIELD", "A_UINT32", "A_UINT32", "A_UTF8STRING"])
+                pdct = {"t": "paramlen", "bt": bt, "key": kname, "enc": None, "hl": None}
+                pdop = {"k": "simple", "id": self.nid("dop"), "dct": pdct, "compu": {"c": "IDENTICAL"},
+                        "pt": {"A_BYTEFIELD": "A_BYTEFIELD", "A_UINT32": "A_UINT32"}.get(bt, "A_UNICODE2STRING")}
+                s = {"k": "struct", "id": self.nid("st"), "bs": None, "params": [
+                    {"pk": "lenkey", "name": kname, "id": self.nid("lkid"), "pos": 0, "bit": 0, "dop": kdop},
+                    {"pk": "value", "name": self.nid("p"), "pos": None, "bit": 0, "dop": pdop, "default": None}]}
+                size = None
+                self.features.add("dlfield-lengthkey-items")
+                self.features.add("dct:paramlen")
+                self.features.add("struct")
+            elif not item_static and self.chance(50):
                 # items ending in a terminated MIN-MAX value: the terminator of every item but the very last one
                 # of a field at the end of the PDU must be present
                 lead = {"k": "simple", "id": self.nid("dop"),
@@ -719,14 +785,22 @@ class G:
                     "compu": {"c": "IDENTICAL"}, "pt": "A_UINT32"}
             cbit = self.d(st.integers(0, 4)) if cbits == 4 else 0
             off = (cbit + cbits + 7) // 8 + self.pick([0, 0, 1])
-            n = self.d(st.integers(2, 3)) if "dlfield-terminated-items" in self.features and self.chance(70) \
-                else self.d(st.integers(0, 3))
+            n = self.d(st.integers(2, 3)) if ({"dlfield-terminated-items", "dlfield-lengthkey-items"} & self.features) \
+                and self.chance(70) else self.d(st.integers(0, 3))
             vals = [self.values_for_struct(s) for _ in range(n)]
             self.features.add("dlfield")
             if n >= 2:
                 self.features.add("field>=2")
             return ({"k": "dlfield", "id": self.nid("dl"), "st": s, "off": off,
                      "cnt": {"dop": cdop, "bp": 0, "bit": cbit}}, vals, None)
+        if k == "eopf" and self.opts.get("envdata", True) and self.chance(45):
+            s = self.env_item_struct()
+            n = self.d(st.integers(1, 3))
+            vals = [self.values_for_struct(s) for _ in range(n)]
+            self.features.add("eopf")
+            if n >= 2:
+                self.features.add("field>=2")
+            return {"k": "eopf", "id": self.nid("eo"), "st": s, "min": None, "max": None}, vals, None
         if k == "eopf":
             s, _, size = self.struct(0, True, False)
             if not size:
@@ -745,7 +819,7 @@ class G:
                     "compu": {"c": "IDENTICAL"}, "pt": "A_UINT32"}
             ksz = (kbit + kbits + 7) // 8
             bp = ksz + self.pick([0, 0, 1])
-            cases, lo = [], self.d(st.integers(0, 3))
+            cases, lo = [], self.pick([0, 0, 0, 1, 2, 3])
             hi_max = (1 << kbits) - 1
             allow_nostruct = tail or self.opts.get("mux_nostruct_anywhere")
             for c in range(self.d(st.integers(1, 3))):
@@ -759,6 +833,9 @@ class G:
                     self.features.add("mux-case-without-structure")
                 cases.append({"name": f"c{c}", "lo": lo, "hi": hi, "st": cs, "snref": self.chance(30)})
                 lo = hi + 1 + self.pick([0, 0, 2])
+            if len(cases) > 1 and self.chance(40):
+                cases = list(self.d(st.permutations(cases)))     # cases need not be declared in ascending order
+                self.features.add("mux-cases-unordered")
             default = None
             used = set()
             for c in cases:
@@ -775,7 +852,7 @@ class G:
             self.features.add("mux")
             if default is not None and self.chance(50):
                 content = self.values_for_struct(default["st"]) if default["st"] is not None else {}
-                if self.opts.get("mux_default_by_name") and self.chance(50):
+                if self.opts.get("mux_default_by_name", True) and self.chance(50):
                     # selected by its name: the key value is chosen by odxtools (C01 self-consistency only)
                     self.features.add("mux-default-by-name")
                     return muxdop, ["dflt", content], None
@@ -794,10 +871,23 @@ class G:
         raise AssertionError(k)
 
     # ------------------------------------------------------------------ values for an existing structure
+    def env_values(self, edop, dtc_param, dtc_value) -> dict:
+        code = dtc_value if isinstance(dtc_value, int) else [c for n_, c in dtc_param["dop"]["dtcs"] if n_ == dtc_value][0]
+        out = {}
+        for sel in (lambda e: e.get("all"), lambda e: code in e.get("dtcs", [])):
+            for e in edop["envs"]:
+                if sel(e):
+                    out.update(self.values_for_struct({"params": e["params"]}))
+                    break
+        return out
+
     def values_for_struct(self, s) -> dict:
         out = {}
         for p in s["params"]:
-            if p["pk"] in ("value", "system"):
+            if p["pk"] == "value" and p["dop"]["k"] == "envdesc":
+                dp = [q for q in s["params"] if q["name"] == p["dop"]["param"]][0]
+                out[p["name"]] = self.env_values(p["dop"], dp, out[dp["name"]])
+            elif p["pk"] in ("value", "system"):
                 if p.get("default") is not None and self.chance(50):
                     continue
                 out[p["name"]] = self.value_for_dop(p["dop"])
@@ -872,7 +962,7 @@ def message_case(draw, depth: int = 2, response_pct: int = 35, opts: Optional[di
             # both are appended behind the last static parameter with explicit positions where possible
             msg["rtype"] = "NEG-RESPONSE"
             if size is not None:
-                vals = sorted({draw(st.integers(0, 255)) for _ in range(draw(st.integers(1, 3)))})
+                vals = sorted({draw(st.one_of(st.just(0), st.integers(0, 255))) for _ in range(draw(st.integers(1, 3)))})
                 dct = {"t": "std", "bt": "A_UINT32", "bl": 8, "enc": None, "hl": None}
                 nrc = {"pk": "nrc", "name": g.nid("nrc"), "pos": size, "bit": 0, "dct": dct, "vals": vals}
                 vdop = {"k": "simple", "id": g.nid("dop"), "dct": dict(dct), "compu": {"c": "IDENTICAL"}, "pt": "A_UINT32"}
